@@ -103,7 +103,7 @@ Definition has_bounds (fns : list trait_fn) : bool :=
                      | _ => false
                      end) fns.
 
-Definition mk_pred (ts : toks) : wpred := mkWP true BOther [] ts.
+Definition mk_pred (ts : toks) : wpred := mkWP true BOther [] ts [].
 
 (** [ImplWhereClauseGenerator] *)
 Definition impl_where (mode : trait_dep_mode) (ind : impl_indirection) (fns : list trait_fn)
